@@ -14,9 +14,9 @@ for every operand expression `e` of a query (method calls of the loop variable, 
 write is lexed, by maximal munch, into exactly the tokens the renderer meant — no juxtaposition
 anywhere in it forms a different token. PROVED (`operand_tokens`, `operand_tokens_in_context`).
 (E) adds the parser (precedence) and the comparison with the query; it is the decidable Spec the
-harness evaluates on the IMPLEMENTATION's text. It is proved here on witnesses only
-(`exprok_witnesses`, kernel-decided — labelled as such); universally it would need a proof of the
-precedence parser, which is not attempted. The counterexample theorems show what (T)/(E) forbid:
+harness evaluates on the IMPLEMENTATION's text. Here it is shown on witnesses (`exprok_witnesses`,
+kernel-decided); the universal statement (with the one defect exclusion of the ints) is
+`exprok_model_partial` in `TheoremsExpr.lean`. The counterexample theorems show what (T)/(E) forbid:
 `glued_sign_counterexample` is the seeded change C18-e1 and the repaired defect 212716c.
 
 `ContextSafe` (Spec, evaluated on every constant text the implementation emits): the text of a
